@@ -281,6 +281,18 @@ func genSqlr(r *Rng) *Enc {
 	e.Strs(parseDates)
 
 	// ---- run ----
+	// the caller's option values are reused from import to import: an earlier import made with the very same NullHandler
+	// map, but with every column listed in ParseDates, over a result set of NULLs, must leave nothing behind in that map
+	if handlerKind == 4 && len(opts) > 0 {
+		wrow := make([]driver.Value, ncols)
+		wst := &dbState{failAt: -1, rs: &resultSet{names: names, types: types, rows: [][]driver.Value{wrow}, errAt: -1}}
+		wdb := openFake(wst)
+		guard(func() error {
+			_, err := dataframe.FromSQL(wdb, "SELECT 1", nil, dataframe.SQLReadOption{NullHandler: mapVals, ParseDates: append([]string{}, names...)})
+			return err
+		})
+		wdb.Close()
+	}
 	// SQLite-style transport in a quarter of the cases (chosen from the case's own shape, no PRNG draw): BOOLEAN values
 	// travel as int64 0/1 and whole REAL/NUMERIC values as int64, and the driver reports the Go type it transports.
 	// database/sql converts them back (convertAssign) into the type the declared name asks for, so the imported frame
